@@ -200,12 +200,15 @@ def parseFloatLit (s : String) : Option Float :=      -- only  D+ '.' D*  forms 
 
 def builtinNames : List String := ["true", "false", "len", "int", "int64", "float64", "string", "print"]
 
-def scopeGet (data : Val) (name : String) : Look :=
-  match getValue name data with
-  | .absent =>
+def scopeGet (frames : List Val) (name : String) : Look :=
+  match frames with
+  | [] =>
     if name = "true" then .found (.bool true) else if name = "false" then .found (.bool false)
     else if builtinNames.contains name then .found (.func name) else .absent
-  | r => r
+  | fr :: rest =>
+    match getValue name fr with
+    | .absent => scopeGet rest name
+    | r => r
 
 def toInt64 (v : Val) : Option Int := isInt v
 
@@ -338,7 +341,7 @@ def relOp (op : String) (l r : Val) : M Val := do
         | .str a, .str b => return .bool (cmp a b)
         | _, _ => setErr
 
-partial def eval (data : Val) : E → M Val
+partial def eval (data : List Val) : E → M Val
   | .lit "nil" _ => do if ← hasErr then return .nil else return .nil
   | .lit "int" t => do
     if ← hasErr then return .nil
@@ -543,7 +546,7 @@ def run (src : String) : String :=
   | .unsupported => "unsupported"
   | .reject => "reject"
   | .accept e =>
-    match (eval env e).run {} with
+    match (eval [env] e).run {} with
     | .error () => "panic"
     | .ok (v, st) =>
       let calls := ",".intercalate st.calls.reverse
